@@ -115,6 +115,20 @@ def generate(rng, tier):
             x = cx + rng.randint(-62, 62); y = cy + rng.randint(-10, 10)
             q = rng.choice([(x, y, x, y), (x, cy, x + rng.randint(0, 5), cy), (cx - 70, y, x, y + 1), (x, cy - 20, cx + 70, cy + 20)])
             cases.append({"boxes": bs, "q": q, "exact": rng.random() < 0.6, "family": "dense-stack/%d-boxes-around-one-point" % m})
+    # a frame: one box (or two identical ones) equal to the extent of the whole collection (a page border), small boxes in the corners and
+    # the middle; queries that lie wholly outside the extent (beside it, diagonally off a corner, touching an edge from outside), and inside
+    for _ in range(max(6, nl // 12)):
+        x0, y0 = F(rng.randint(-20, 20)), F(rng.randint(-20, 20)); w, h = F(rng.randint(4, 60)), F(rng.randint(4, 60)); x1, y1 = x0 + w, y0 + h
+        bs = [(0, (x0, y0, x1, y1))] + ([(1, (x0, y0, x1, y1))] if rng.random() < 0.3 else [])
+        k = len(bs)
+        for cx, cy in [(x0, y0), (x1 - 1, y1 - 1), (x0, y1 - 1), (x1 - 1, y0), (x0 + w / 2, y0 + h / 2)][:rng.randint(2, 5)]:
+            bs.append((k, (cx, cy, cx + rng.choice([0, 1]), cy + rng.choice([0, 1])))); k += 1
+        rng.shuffle(bs)
+        d = F(rng.choice([1, 5, 100])); t = rng.choice([F(0), F(1), F(1, 4)])
+        qs = [(x1 + d, y1 + d, x1 + d + 9, y1 + d + 9), (x0 - d - 4, y0 + 1, x0 - d, y0 + 2), (x0, y1 + d, x1, y1 + d + 1), (x1 + t, y0, x1 + t + 3, y1),
+              (x0 + 1, y0 + 1, x0 + 2, y0 + 2), (x0 - 9, y0 - 9, x0, y0), (x0 - 9, y0 - 9, x0 - F(1, 8), y0 + 3)]
+        for q in rng.sample(qs, min(len(qs), nq + 1)):
+            cases.append({"boxes": bs, "q": q, "exact": rng.random() < 0.6, "family": "frame-equal-to-the-whole-extent"})
     # an index is built once and queried many times: 1-4 earlier queries on the same index (whole extent, halves and quadrants of the
     # extent, single boxes; the caller keeps and edits the sets it was given) must not change the answer to the judged query
     for _ in range(nl):
